@@ -183,6 +183,104 @@ example :
   simp only [List.mem_cons, List.mem_nil_iff, or_false] at hs
   rcases hs with rfl | rfl | rfl <;> simp
 
+/-! ### configuration carried through preparation (`into_prepared_statement`, `prepare_batch`) - THEOREM-ONLY layer:
+the harness prepares a bare string and configures afterwards, so this transcription is not yet driven -/
+
+/-- **A prepared statement inherits the retry-relevant configuration of the statement it was prepared from** - the
+whole `StatementConfig`, in particular the idempotence flag, the retry policy, the consistency, the serial
+consistency, the request timeout and the execution-profile handle -, for every statement and every PREPARE response. -/
+theorem prepared_inherits_retry_config (st : Stmt) (id : Nat) (isLwt : Bool) (tracingId : Option Nat) :
+    (intoPrepared st id isLwt tracingId).config = st.config ∧
+    (intoPrepared st id isLwt tracingId).config.idem = st.config.idem ∧
+    (intoPrepared st id isLwt tracingId).config.policy = st.config.policy ∧
+    (intoPrepared st id isLwt tracingId).config.cl = st.config.cl ∧
+    (intoPrepared st id isLwt tracingId).config.serial = st.config.serial ∧
+    (intoPrepared st id isLwt tracingId).config.timeout = st.config.timeout ∧
+    (intoPrepared st id isLwt tracingId).config.profile = st.config.profile :=
+  ⟨rfl, rfl, rfl, rfl, rfl, rfl, rfl⟩
+
+/-- **Hence the same attempts**: on any session (default profile `d`), any plan, any outcomes, any frame-level
+answers, the execution of the prepared statement makes exactly the attempts (targets, consistencies, decisions,
+result) - and puts exactly the frames per attempt on the wire, for the same statement kind - that the execution of
+the unprepared statement with the same configuration makes; the pager's copy included. -/
+theorem prepared_attempts_eq_statement_attempts (st : Stmt) (id : Nat) (isLwt : Bool) (tracingId : Option Nat)
+    (d : Profile) (plan : List Target) :
+    let ps := sessionParams (intoPrepared st id isLwt tracingId).config.toStmtCfg d
+    let us := sessionParams st.config.toStmtCfg d
+    ps = us ∧
+    (∀ outcomes, Exec.run ps.policy ps.idem ps.cl plan outcomes = Exec.run us.policy us.idem us.cl plan outcomes) ∧
+    (∀ kind answers rounds, runWire ps.policy ps.idem ps.cl plan kind answers rounds
+      = runWire us.policy us.idem us.cl plan kind answers rounds) ∧
+    pagingExecutorNew (intoPrepared st id isLwt tracingId).config.toStmtCfg d = us :=
+  ⟨rfl, fun _ => rfl, fun _ _ _ => rfl, pager_params_eq_session_params _ _⟩
+
+private theorem prepareStmts_spec (prep : Nat → Option (Nat × Bool)) (l : List BatchStmt) (i : Nat)
+    (l' : List BatchStmt) (h : prepareStmts prep i l = some l') :
+    l'.map BatchStmt.config = l.map BatchStmt.config ∧ (∀ s ∈ l', s.isPrepared = true) := by
+  induction l generalizing i l' with
+  | nil => simp [prepareStmts] at h; subst h; simp
+  | cons s rest ih =>
+    cases s with
+    | prepared p =>
+      simp only [prepareStmts, Option.map_eq_some_iff] at h
+      obtain ⟨r, hr, rfl⟩ := h
+      obtain ⟨h1, h2⟩ := ih (i + 1) r hr
+      refine ⟨by simp [h1], ?_⟩
+      intro s hs
+      rcases List.mem_cons.mp hs with rfl | hs
+      · rfl
+      · exact h2 s hs
+    | query q =>
+      simp only [prepareStmts] at h
+      split at h
+      · simp at h
+      · rename_i idv lwt hp
+        simp only [Option.map_eq_some_iff] at h
+        obtain ⟨r, hr, rfl⟩ := h
+        obtain ⟨h1, h2⟩ := ih (i + 1) r hr
+        refine ⟨by simp [h1, BatchStmt.config, intoPrepared], ?_⟩
+        intro s hs
+        rcases List.mem_cons.mp hs with rfl | hs
+        · rfl
+        · exact h2 s hs
+
+/-- **`prepare_batch` keeps every configuration**: the batch's own (which is what governs the retries of a BATCH
+request), its type, and - position by position - the configuration of every statement; afterwards every statement
+is prepared. -/
+theorem prepare_batch_keeps_configs (b b' : Batch) (prep : Nat → Option (Nat × Bool))
+    (h : prepareBatch b prep = some b') :
+    b'.config = b.config ∧ b'.batchType = b.batchType ∧
+    b'.statements.map BatchStmt.config = b.statements.map BatchStmt.config ∧
+    (∀ s ∈ b'.statements, s.isPrepared = true) ∧
+    (∀ d, sessionParams b'.config.toStmtCfg d = sessionParams b.config.toStmtCfg d) := by
+  simp only [RetryProfile.prepareBatch, Option.map_eq_some_iff] at h
+  obtain ⟨l, hl, rfl⟩ := h
+  obtain ⟨h1, h2⟩ := prepareStmts_spec prep b.statements 0 l hl
+  exact ⟨rfl, rfl, h1, h2, fun _ => rfl⟩
+
+/-- the error branch: `prepare_batch` fails as soon as the PREPARE of an unprepared statement fails -/
+theorem prepare_batch_fails_on_first_failed_prepare (b : Batch) (s : Stmt) (rest : List BatchStmt)
+    (prep : Nat → Option (Nat × Bool)) (hb : b.statements = .query s :: rest) (hp : prep 0 = none) :
+    prepareBatch b prep = none := by
+  simp [RetryProfile.prepareBatch, hb, prepareStmts, hp]
+
+-- non-vacuity: a non-idempotent statement with the fall-through policy, ALL, a timeout and a profile handle, prepared:
+-- the prepared statement carries all of it and runs with (fallthrough, not idempotent, ALL, 150 ms); a batch of it
+-- and an already prepared statement keeps its own (downgrading) configuration through prepare_batch
+example :
+    let cfg : FullStmtCfg := ⟨some .all, some (some 0), false, false, true, some 7, some 150, some 3,
+      some ⟨.two, .downgrading, none⟩, some 1, some .fallthrough⟩
+    let st : Stmt := ⟨"INSERT", 5000, cfg⟩
+    let p := intoPrepared st 42 false (some 9)
+    let d : Profile := ⟨.three, .default, some 30000⟩
+    p.config = cfg ∧ p.tracingIds = [9] ∧
+    sessionParams p.config.toStmtCfg d = ⟨false, .all, .fallthrough, some 150⟩ ∧
+    (let bc : FullStmtCfg := { cfg with policy := some .downgrading, idem := true }
+     let b : Batch := ⟨bc, [.query st, .prepared p], 0⟩
+     (prepareBatch b (fun _ => some (42, false))).map (fun b' => (b'.config == bc, b'.statements.map BatchStmt.isPrepared))
+       = some (true, [true, true]) ∧
+     prepareBatch b (fun _ => none) = none) := by decide
+
 /-! ### the paged iteration -/
 
 private theorem pagedRun_mem (ex : ExecParams) (plans : Nat → List Target) (kind : StmtKind)
